@@ -191,6 +191,12 @@ class Renderer:
             e = "dds.eval(" + self.sym(mod, it["fn"], f["module"], "from", imports) + ")"
         elif k == "raw":
             return [it["text"], f"_{i} = None"]
+        elif k == "shadow" and it["how"] in ("lambda_assigned", "nested_def_param"):
+            # an inner scope whose parameter is called like a module-level name; the inner scope does not read the module's
+            v = it["var"]
+            if it["how"] == "lambda_assigned":
+                return [f"_f{i} = lambda {v}: {v}", f"_{i} = _f{i}(1)"]
+            return [f"def _inner{i}({v}):", f"    return {v}", f"_{i} = _inner{i}(1)"]
         elif k == "shadow":
             # a construct that binds a local name equal to a module variable's name: the module variable is NOT read
             v = it["var"]
